@@ -233,13 +233,20 @@ PROPS = {
         "assumptions": ["preemption inside in-memory sections on a multi-thread runtime (DashMap shards, relaxed atomics) is not in the model"],
     },
     "C13": {
-        "thm_module": ["AkdModel.Thm.C13", "AkdModel.Thm.C16b"],
+        "thm_module": ["AkdModel.Thm.C13", "AkdModel.Thm.C16b", "AkdModel.Thm.C13b"],
         "theorems": ["Akd.C13." + t for t in ["snapshot_read", "resolve_current", "resolve_lag1", "write_preserves", "write_new",
                                               "write_frame", "lag2_witness"]]
                     + ["Akd.CacheFill." + t for t in ["coherent_reachable", "quiescent_cache_exact", "answers_recent",
-                                                      "stale_fill_witness", "stale_fill_witness_fixed", "evict_in_fill_witness"]],
+                                                      "stale_fill_witness", "stale_fill_witness_fixed", "evict_in_fill_witness"]]
+                    + ["Akd.Poll." + t for t in ["answers_after_signal", "signalled_is_served", "flush_excludes_requests",
+                                                 "answers_not_before_start", "unguarded_witness", "unguarded_witness_blocked"]],
         "streams": ["l1.dir.c13", "l1.sched.read", "l1.sched.poll"],
-        "rule": "(a) read requests (epoch hash, lookup, complete / most-recent history, audit; one or two at a time) on a second, "
+        "rule": "(c) l1.sched.poll: a writer instance publishes one or two batches while requests (three per task, each started at a "
+                "moment the schedule chooses) are served by a SECOND, read-only instance with its own cache on which the real "
+                "poll_for_azks_changes runs as a daemon task on a paused clock; all schedules up to 2 (one scenario: 3) preemptions, "
+                "switches away from the poller not counted; oracle: C13's (published pair, verifying proof) plus the last clause — a "
+                "request that started after the poller had signalled epoch k is answered from an epoch >= k, also after the run; "
+                "(a) read requests (epoch hash, lookup, complete / most-recent history, audit; one or two at a time) on a second, "
                 "read-only instance (uncached, default cache, 1 ms cache — or SHARING the writer's cached storage manager, with database "
                 "reads that take their value at one scheduling point and deliver it at a later one, followed by a probe of the same "
                 "instance after the run) run as tasks interleaved with a publish on the writer at "
@@ -355,10 +362,11 @@ PROPS = {
         "assumptions": ["rust-protobuf's generated code is modelled (match on full tag, limits, recursion levels), not verified"],
     },
     "C20": {
-        "thm_module": ["AkdModel.Thm.C20", "AkdModel.Thm.C05"],
+        "thm_module": ["AkdModel.Thm.C20", "AkdModel.Thm.C05", "AkdModel.Thm.C20b"],
         "theorems": ["Akd.C20." + t for t in ["tombstone_keeps_tree", "tombstone_epochHash", "tombstone_audit",
                                                "tombstone_other_lookup", "tombstone_own_lookup", "tombstone_then_publish"]]
-                    + ["Akd.C05.membership_sound_leaf"],
+                    + ["Akd.C05.membership_sound_leaf"]
+                    + ["Akd.Store." + t for t in ["tombstone_exact", "tombstone_keeps_later", "tombstone_frame", "tombstone_active"]],
         "streams": ["l1.dir.c20", "l1.store"],
         "rule": "l1.store: StorageManager::tombstone_value_states outside and INSIDE an open transaction (every dense case cuts "
                 "the user with the most states in the middle while the transaction is open): the manager's view of the user's "
